@@ -127,7 +127,7 @@ class Sys(e1.TimedSys):
                     del m.live[key]
                     m.arrived.pop(key, None)
             else:
-                sess = self.wire.get(k, 0) + 1
+                sess = self.wire.get(k, self.cfg.get("session_base", 0)) + 1
             self.wire[k] = sess
             m.sent_before.add(k)
             entries = []
@@ -260,6 +260,9 @@ def configs(ctx):
     # S1 / X only, all clock moves, deviations, to closure
     out.append(("S1-X-deep", dict(sid=sid, advs=full, menu=s1x, controls=("L2", "connlost"),
                                   deviations=ctx.pick(1, 2), fine=ctx.pick(1, 2)), CLOSURE))
+    # the same alphabet with a source whose session counter is far advanced when it reboots (0xFFF0 -> 1)
+    out.append(("S1-X-high-session", dict(sid=sid, advs=base, menu=s1x, controls=(), deviations=0, fine=1,
+                                          session_base=0xFFF0 - ctx.seed % 0x7000), CLOSURE))
     # full menu: two sources, two services, all listeners
     menu = s1x + [("S1", n, "n", mc) for n in ("offY1", "stopY", "offX2+offY1")] + \
         [("S1", "offX2+offY1", "r", mc)] + [("S2", n, e, mc) for n in ("offX2", "stopX") for e in ("n", "r")]
